@@ -45,12 +45,17 @@ LeafKinds == NumKinds \cup {"bool", "str", "iface", "num", "raw", "bytes", "uj",
 \*  z 0 | nz -0 | p7 7 | p9 9 (only as a prior value) | p12 12 | n3 -3 | n200 -200 | p200 200 | p300 300 | p40000 40000 | p70000 70000
 \*  p3e9 3000000000 | p5e9 5000000000 | p2_63 2^63 | n2_63 -2^63 | p2_64 2^64 | f1_5 1.5 | f1_0 1.0 | e1e2 1e2
 \*  f1e39 1e39 | big 1e400 | f1e21 1e21 | f1e20 1e20 | f1em6 0.000001 | f1em7 0.0000001 (the notation thresholds of printed floats)
-IntLits == {"z", "nz", "p7", "p12", "n3", "n200", "p200", "p300", "p40000", "p70000", "p3e9", "p5e9", "p2_63", "n2_63", "p2_64"}
+\* exact boundaries of every integer width: i<min|max>W, one beyond (iminmW = min - 1, imaxpW = max + 1), u<max>W and umaxpW = max + 1
+BoundLits == {"iminm64", "iminm32", "imin32", "iminm16", "imin16", "iminm8", "imin8", "imax8", "imaxp8", "umax8", "umaxp8", "imax16", "imaxp16", "umax16", "umaxp16", "imax32", "imaxp32", "umax32", "umaxp32", "imax64", "umax64"}
+BoundKey(c) == CASE c = "iminm64" -> "-9223372036854775809" [] c = "iminm32" -> "-2147483649" [] c = "imin32" -> "-2147483648" [] c = "iminm16" -> "-32769" [] c = "imin16" -> "-32768" [] c = "iminm8" -> "-129" [] c = "imin8" -> "-128" [] c = "imax8" -> "127" [] c = "imaxp8" -> "128" [] c = "umax8" -> "255" [] c = "umaxp8" -> "256" [] c = "imax16" -> "32767" [] c = "imaxp16" -> "32768" [] c = "umax16" -> "65535" [] c = "umaxp16" -> "65536" [] c = "imax32" -> "2147483647" [] c = "imaxp32" -> "2147483648" [] c = "umax32" -> "4294967295" [] c = "umaxp32" -> "4294967296" [] c = "imax64" -> "9223372036854775807" [] c = "umax64" -> "18446744073709551615"
+IntLits == {"z", "nz", "p7", "p12", "n3", "n200", "p200", "p300", "p40000", "p70000", "p3e9", "p5e9", "p2_63", "n2_63", "p2_64"} \cup BoundLits
 NumClasses == IntLits \cup {"f1_5", "f1_0", "e1e2", "f1e39", "big", "f1e21", "f1e20", "f1em6", "f1em7"}
 \* smallest signed / unsigned width that holds the integer literal (99 = none)
-SBits(c) == CASE c \in {"z", "nz", "p7", "p12", "n3"} -> 8 [] c \in {"n200", "p200", "p300"} -> 16 [] c \in {"p40000", "p70000"} -> 32
+SBits(c) == CASE c \in {"imin8", "imax8"} -> 8 [] c \in {"imin16", "iminm8", "imaxp8", "umax8", "umaxp8", "imax16"} -> 16 [] c \in {"imin32", "iminm16", "imaxp16", "umax16", "umaxp16", "imax32"} -> 32 [] c \in {"iminm32", "imaxp32", "umax32", "umaxp32", "imax64"} -> 64
+              [] c \in {"z", "nz", "p7", "p12", "n3"} -> 8 [] c \in {"n200", "p200", "p300"} -> 16 [] c \in {"p40000", "p70000"} -> 32
               [] c \in {"p3e9", "p5e9", "n2_63"} -> 64 [] OTHER -> 99
-UBits(c) == CASE c \in {"z", "p7", "p12", "p200"} -> 8 [] c \in {"p300", "p40000"} -> 16 [] c \in {"p70000", "p3e9"} -> 32
+UBits(c) == CASE c \in {"imax8", "imaxp8", "umax8"} -> 8 [] c \in {"umaxp8", "imax16", "imaxp16", "umax16"} -> 16 [] c \in {"umaxp16", "imax32", "imaxp32", "umax32"} -> 32 [] c \in {"umaxp32", "imax64", "umax64"} -> 64
+              [] c \in {"z", "p7", "p12", "p200"} -> 8 [] c \in {"p300", "p40000"} -> 16 [] c \in {"p70000", "p3e9"} -> 32
               [] c \in {"p5e9", "p2_63"} -> 64 [] OTHER -> 99
 FloatOk(c, k) == c # "big" /\ (k = "f32" => c # "f1e39")
 
@@ -210,7 +215,9 @@ Select(fs, key, o) ==
 KeyClass(key) == CASE key = "12" -> "p12" [] key = "01" -> "p7" [] key = "9" -> "p7" [] key = "1" -> "p7" [] key = "-1" -> "n3" [] key = "-129" -> "n200"
                    [] key = "200" -> "p200" [] key = "300" -> "p300" [] key = "40000" -> "p40000" [] key = "-40000" -> "n40000"
                    [] key = "3000000000" -> "p3e9" [] key = "5000000000" -> "p5e9" [] key = "9223372036854775808" -> "p2_63"
-                   [] key = "-9223372036854775808" -> "n2_63" [] OTHER -> "none"
+                   [] key = "-9223372036854775808" -> "n2_63"
+                   [] \E c \in BoundLits : BoundKey(c) = key -> CHOOSE c \in BoundLits : BoundKey(c) = key
+                   [] OTHER -> "none"
 KeySBits(c) == IF c = "n40000" THEN 32 ELSE SBits(c)
 \* canonical key after conversion, or "bad"
 KeyConv(key, kind) ==
